@@ -153,6 +153,7 @@ def run(prop, tier):
         raise NoVerdict("concurrency harness did not finish (rc=%d):\n%s\n%s" % (rc, out[-3000:], err[-3000:]))
     recs = vlib.read_ndjson(outp)
     table = [r for r in recs if r["ev"] == "measure"][0]["table"]
+    leaks = [r for r in recs if r["ev"] == "leaks"][0]["table"]
     exps = [r["e"] for r in recs if r["ev"] == "exp"]
     batches = [r for r in recs if r["ev"] == "batch"]
     m = re.search(r"VERIF-UNIVERSE (.*)", out)
@@ -173,6 +174,8 @@ def run(prop, tier):
         if any(row["raw"]):
             rawk.append(row["op"])
     log("[measure] lock table: %s raw: %s" % (json.dumps(mode, sort_keys=True), rawk))
+    leaky = sorted(set(l["op"] for l in leaks if l["fired"] and not l["hang"] and l["held"] != "N"))
+    log("[measure] error exits probed: %d, operations returning with Server.mu held: %s" % (len([l for l in leaks if l["fired"]]), leaky))
     twd = vlib.workdir(prop, "mc")
     cases = " [] ".join('k = "%s" -> "%s"' % (k, v) for k, v in sorted(mode.items()))
     with open(os.path.join(twd, "MCConcMeasured.tla"), "w") as f:
@@ -180,12 +183,13 @@ def run(prop, tier):
                 "\\* generated by tools/fam_conc.py from probes of the real Server.mu / agent client mutex\n"
                 "Measured == [k \\in Kinds |-> CASE %s]\n" % cases +
                 "RawK == {%s}\n" % ", ".join('"%s"' % k for k in rawk) +
+                "MeasuredLeaky == {%s}\n" % ", ".join('"%s"' % k for k in leaky) +
                 "Sub(s, a, c) == [i \\in DOMAIN s |-> IF s[i] = a THEN c ELSE s[i]]\n"
                 "PM == [k \\in Kinds |-> IF k \\in RawK THEN Sub(P[k], \"call\", \"raw\") ELSE Sub(P[k], \"raw\", \"call\")]\n====\n")
     threads = "T2" if tier == "quick" else "T3"
     with open(os.path.join(twd, "conc.cfg"), "w") as f:
-        f.write("SPECIFICATION Spec\nCONSTANTS\n Threads <- %s\n OpKinds <- Kinds\n LockMode <- Measured\n Prog <- PM\n"
-                "INVARIANTS TableExclusion WireExclusion OwnReply RWSane\nPROPERTY AllDone\nCHECK_DEADLOCK FALSE\n" % threads)
+        f.write("SPECIFICATION Spec\nCONSTANTS\n Threads <- %s\n OpKinds <- Kinds\n LockMode <- Measured\n Prog <- PM\n Leaky <- MeasuredLeaky\n"
+                "INVARIANTS TableExclusion WireExclusion OwnReply RWSane NoLeak\nPROPERTY AllDone\nCHECK_DEADLOCK FALSE\n" % threads)
     r = vlib.tlc(twd, "MCConcMeasured.tla", "conc.cfg", workers=8, timeout=3000)
     model_viol = None
     if r.violated:
@@ -194,9 +198,9 @@ def run(prop, tier):
         log("[tlc] MODEL counterexample with the measured table: %s" % json.dumps(model_viol))
         # keep going until every invariant's status is known: rerun one invariant at a time
         model_viol["all"] = []
-        for inv in ("TableExclusion", "WireExclusion", "OwnReply"):
+        for inv in ("TableExclusion", "WireExclusion", "OwnReply", "NoLeak"):
             with open(os.path.join(twd, "one.cfg"), "w") as f:
-                f.write("SPECIFICATION Spec\nCONSTANTS\n Threads <- T2\n OpKinds <- Kinds\n LockMode <- Measured\n Prog <- PM\n"
+                f.write("SPECIFICATION Spec\nCONSTANTS\n Threads <- T2\n OpKinds <- Kinds\n LockMode <- Measured\n Prog <- PM\n Leaky <- MeasuredLeaky\n"
                         "INVARIANT %s\nCHECK_DEADLOCK FALSE\n" % inv)
             r1 = vlib.tlc(twd, "MCConcMeasured.tla", "one.cfg", workers=4, timeout=1200)
             if r1.violated:
@@ -217,6 +221,18 @@ def run(prop, tier):
         rp = vlib.save_replay(prop, "race_%s.txt" % re.sub(r"\W", "_", k), text)
         verdict.violation(k, "data race on the shim's shared state reported by the race detector", rp)
         real += 1
+    for l in leaks:
+        if l["hang"]:
+            k = "hang:%s:%s" % (l["op"], l["kind"])
+            verdict.violation(k, "the operation does not return when its upstream request %d is answered with fault %s" % (l["k"], l["kind"]),
+                              vlib.save_replay(prop, "leak_%s_%s_%d.json" % (l["op"], l["kind"], l["k"]), l))
+            real += 1
+        elif l["fired"] and l["held"] != "N":
+            k = "leak:%s:%s" % (l["op"], l["kind"])
+            verdict.violation(k, "the operation returned with Server.mu still held (%s) after upstream request %d was answered with fault %s; a following operation %s"
+                              % (l["held"], l["k"], l["kind"], "did not complete" if l["next_hang"] else "completed"),
+                              vlib.save_replay(prop, "leak_%s_%s_%d.json" % (l["op"], l["kind"], l["k"]), l))
+            real += 1
     seen = set()
     for e in exps:
         pair = "+".join(sorted([e["A"], e["B"]]))
@@ -278,7 +294,7 @@ def run(prop, tier):
            "evaluations": len(exps) + len(batches), "distinct_nontrivial": len(set((e["A"], e["B"], e["hold"]) for e in exps if e["reached"])),
            "rule": "forced-overlap experiments (A suspended inside its k-th upstream request, B started) for every ordered pair of operation kinds; distinct_nontrivial = distinct (A, B, k) reached; concurrent batches of 2..16 goroutines",
            "model": {"threads": threads, "lock_table_measured": mode, "model_violation": model_viol},
-           "connection_level": conn_info, "race_reports": len(reps), "batches_linearised": len(lin), "batches_total": len(batches), "experiments": len(exps)}
+           "connection_level": conn_info, "error_exits_probed": len([l for l in leaks if l["fired"]]), "race_reports": len(reps), "batches_linearised": len(lin), "batches_total": len(batches), "experiments": len(exps)}
     rcode = verdict.finish()
     vlib.write_evidence(prop, tier, "model_checking", cov,
                         ["Prog (segments per operation) is transcribed by reading shimserver.go; LockMode and raw/call are measured",
